@@ -14,12 +14,13 @@ SCALARS = {"bool": 1, "uint32": 2, "uint64": 3, "sint32": 4, "sint64": 5, "strin
 # SET with explicit tags: declared component j is visited (and carried in the value) at index DECL[j]
 DECL_ORDER = {14: [1, 0]}
 MSG_IDS = [t for t in ZOO if t not in (2, 19, 20)]
+IMP_IDS = [3, 4, 5, 7, 8, 9]          # messages of ZooImp (two-module zoo), same names and shapes as the zoo's
 
 
 # --------------------------------------------------------------------------
 # a parser for the proto3 subset that generate/protobuf.rs emits
 # --------------------------------------------------------------------------
-def parse_proto(text):
+def parse_proto(text, imports=None):
     """-> (package, defs) with defs[name] = ('message', [field...]) | ('enum', [(name, value)...]);
     field = ('field', name, number, type, repeated) | ('oneof', name, [(name, number, type)...]).
     Raises ValueError on anything outside the subset."""
@@ -33,6 +34,10 @@ def parse_proto(text):
     package = m.group(1)
     defs = {}
     i = 2
+    while i < len(lines) and re.fullmatch(r"import '([a-z0-9_]+\.proto)';", lines[i]):
+        if imports is not None:
+            imports.append(lines[i][8:-2])
+        i += 1
     while i < len(lines):
         m = re.fullmatch(r"(message|enum) ([A-Za-z0-9_]+) \{", lines[i])
         if not m:
@@ -70,6 +75,27 @@ def parse_proto(text):
         i += 1
         defs[name] = (kind, items)
     return package, defs
+
+
+def merge_imported(base_pkg, base_defs, imp_defs):
+    """definitions of the importing file with every type name resolved as protoc would (package-qualified names
+    of the imported file -> that definition; bare names -> the file's own); raises ValueError on a name that
+    resolves to nothing"""
+    def res(ty):
+        if ty in SCALARS or ty in imp_defs:
+            return ty
+        if ty.startswith(base_pkg + ".") and ty[len(base_pkg) + 1:] in base_defs:
+            return ty[len(base_pkg) + 1:]
+        raise ValueError("type name %s resolves to nothing" % ty)
+    out = dict(base_defs)
+    for name, (kind, items) in imp_defs.items():
+        if name in base_defs:
+            raise ValueError("definition %s in both files" % name)
+        if kind == "message":
+            items = [("field", it[1], it[2], res(it[3]), it[4]) if it[0] == "field"
+                     else ("oneof", it[1], [(a, n, res(ty), r) for (a, n, ty, r) in it[2]]) for it in items]
+        out[name] = (kind, items)
+    return out
 
 
 def dump_type(defs, ty, rep):
@@ -271,7 +297,8 @@ class C18(Spec):
     prop = "C18"
     coq_targets = ["Props/C18.vo"]
     prop_module = "Props.C18"
-    theorems = ["C18_numbers_match", "C18_decodes_under_schema_partial", "C18_schema_valid_partial",
+    theorems = ["C18_numbers_match", "C18_decodes_under_schema", "C18_refuted_list_of_null",
+                "C18_decodes_under_schema_partial", "C18_schema_valid_partial",
                 "C18_null_field_fixed", "C18_refuted_set_order", "C18_refuted_nested_list_proto",
                 "C18_refuted_choice_list_proto", "C18_refuted_choice_null"]
     builds = [("protobuf", "dev"), ("protobuf", "release")]
@@ -305,8 +332,33 @@ class C18(Spec):
             st["parse_error"] = None
         except (ValueError, IndexError) as e:
             st["package"], st["defs"], st["parse_error"] = "zoo", {}, str(e)
+        # the two-module zoo (op 4103): every generated file, the importing one resolved against the imported one
+        out = subprocess.run([exe], input=b"4103\n", stdout=subprocess.PIPE).stdout.decode().split()
+        st["multi"], st["multi_error"], st["multi_defs"], st["multi_pkg"] = [], None, {}, None
+        try:
+            if out[:1] != ["0"]:
+                raise ValueError("op 4103 answers " + " ".join(out[:3]))
+            v = list(map(int, out))
+            i = 2
+            for _ in range(v[1]):
+                parts = []
+                for _ in range(2):
+                    parts.append("".join(map(chr, v[i + 1:i + 1 + v[i]])))
+                    i += 1 + v[i]
+                st["multi"].append(tuple(parts))
+                with open(os.path.join(st["dir"], parts[0]), "w") as f:
+                    f.write(parts[1])
+            texts = dict(st["multi"])
+            imps = []
+            bpkg, bdefs = parse_proto(texts["zoo_base.proto"])
+            st["multi_pkg"], idefs = parse_proto(texts["zoo_imp.proto"], imps)
+            if imps != ["zoo_base.proto"]:
+                raise ValueError("zoo_imp.proto imports %s" % imps)
+            st["multi_defs"] = merge_imported(bpkg, bdefs, idefs)
+        except (ValueError, IndexError, KeyError) as e:
+            st["multi_error"] = "%s: %s" % (type(e).__name__, e)
         if st["protoc"]:
-            for fname in ("zoo.proto", "zoo_bad.proto"):
+            for fname in ["zoo.proto", "zoo_bad.proto"] + [n for n, _ in st["multi"]]:
                 p = subprocess.run([PROTOC, "--proto_path=" + st["dir"], "-o", os.devnull, fname], cwd=st["dir"],
                                    stdout=subprocess.PIPE, stderr=subprocess.STDOUT)
                 st[fname + ".rc"] = p.returncode
@@ -314,12 +366,12 @@ class C18(Spec):
         self._state = st
         return st
 
-    def protoc_decode(self, tid, bs):
+    def protoc_decode(self, tid, bs, fname="zoo.proto", package=None):
         st = self.state()
-        key = (tid, tuple(bs))
+        key = (tid, tuple(bs), fname)
         if key in st["cache"]:
             return st["cache"][key]
-        p = subprocess.run([PROTOC, "--proto_path=" + st["dir"], "--decode=%s.%s" % (st["package"], ZOO_NAMES[tid]), "zoo.proto"],
+        p = subprocess.run([PROTOC, "--proto_path=" + st["dir"], "--decode=%s.%s" % (package or st["package"], ZOO_NAMES[tid]), fname],
                            cwd=st["dir"], input=bytes(bs), stdout=subprocess.PIPE, stderr=subprocess.PIPE)
         if p.returncode != 0:
             res = ("fail", p.stderr.decode()[:200])
@@ -336,7 +388,7 @@ class C18(Spec):
 
     def applies(self, line, build):
         # 4100 / 4102 (the generated .proto text) are evaluated in extra_checks; the model has no counterpart
-        return line.split()[0] not in ("4100", "4102")
+        return line.split()[0] not in ("4100", "4102", "4103")
 
     def gen(self, rng, tier):
         L = []
@@ -385,6 +437,17 @@ class C18(Spec):
             want = expected(st["defs"], t, v, ZOO_NAMES[tid], tid)
             if got != want or has_unknown(d[1]):
                 return (fam, "protoc decodes %s%s, value says %s" % (str(got)[:110], " (+unknown fields)" if has_unknown(d[1]) else "", str(want)[:110]))
+        # (iii) the same bytes under the importing module's file of the two-module zoo (same message shape, component
+        #       types imported from another package)
+        if (st["protoc"] and tid in IMP_IDS and st["multi_error"] is None
+                and all(st.get(n + ".rc") == 0 for n, _ in st["multi"])):
+            d = self.protoc_decode(tid, bs, "zoo_imp.proto", st["multi_pkg"])
+            if d[0] != "ok":
+                return ("protoc_rejects_bytes_imported", "protoc --decode under zoo_imp.proto failed: %s" % d[1])
+            got = canon_text(d[1])
+            want = expected(st["multi_defs"], t, v, ZOO_NAMES[tid], tid)
+            if got != want or has_unknown(d[1]):
+                return ("decode_mismatch_imported", "under zoo_imp.proto protoc decodes %s, value says %s" % (str(got)[:110], str(want)[:110]))
         return None
 
     def nontrivial(self, line, out):
@@ -413,6 +476,27 @@ class C18(Spec):
                     of.append({"case": "4102", "build": build, "impl": st["zoo_bad.proto"][:300],
                                "class": "proto_file_rejected_repeated_in_oneof",
                                "what": "a SEQUENCE OF alternative of a CHOICE is emitted as a repeated oneof member: " + log[:200]})
+        if st["multi_error"] is not None:
+            of.append({"case": "4103", "build": build, "impl": "\n".join(c for _, c in st["multi"])[:600],
+                       "class": "proto_imported_type_unresolved",
+                       "what": "two-module specification: the generated files do not resolve: " + st["multi_error"]})
+        if st["protoc"]:
+            for n, c in st["multi"]:
+                if st.get(n + ".rc") != 0:
+                    of.append({"case": "4103", "build": build, "impl": c[:600], "class": "proto_file_rejected_multi_module",
+                               "what": "protoc rejects the generated %s: %s" % (n, st.get(n + ".log", ""))})
+        if st["multi_error"] is None:
+            mo = vlib.run_model(["4101 %d" % tid for tid in IMP_IDS], mode="dev")
+            bad = []
+            for tid, m in zip(IMP_IDS, mo):
+                try:
+                    want = [0] + dump_type(st["multi_defs"], ZOO_NAMES[tid], 0)
+                except (ValueError, KeyError) as e:
+                    want = ["unparsable: %s" % e]
+                if list(map(str, want)) != m.split():
+                    bad.append({"case": "4101 %d (zoo_imp.proto)" % tid, "build": build, "impl": " ".join(map(str, want))[:400], "model": m[:400]})
+            ctx["disagreements"].extend(bad)
+            ctx["coverage_extra"]["schema_of_vs_generated_proto_two_modules"] = "%d message types compared, %d differ" % (len(IMP_IDS), len(bad))
         # schema_of (model) against the structure parsed from the real text
         if st["parse_error"] is None:
             lines = ["4101 %d" % tid for tid in MSG_IDS]
